@@ -359,7 +359,7 @@ def stage(chk, P, S, SV):
             chk.judge(bad is None, "STAGE", inst + ":no-velocity-level-read-before-it-is-marked-valid", fn.loc,
                       "lazy cache %s depends on Stage::%s only, but its filler reads velocity-level quantities (%s, line %s) before marking it valid: after a change of u alone "
                       "it stays flagged valid and stale" % (c.split("::")[-1], inv[S.cache[c]["dep"]], bad and str(bad.get("fn", "")).split("::")[-1], bad and bad.get("line")))
-    chk.shape(nst >= 8, "STAGE", "lazy-cache-fillers>=8", "", "%d lazy (ensure-idiom) cache fillers examined" % nst)
+    chk.shape(nst >= 4, "STAGE", "lazy-cache-fillers>=4", "", "%d lazy (ensure-idiom) cache fillers examined" % nst)
     chk.floor("STAGE", 25)
 
 
